@@ -110,7 +110,8 @@ class KademliaRPC:
         if not peers:
             response[PAGE_KEY] = 0
         else:
-            response[PAGE_KEY] = (len(peers) // (constants.K + 1)) + 1  # how many pages of peers we have for the blob
+            # how many pages of peers we have for the blob (K per page, the last one may be partial)
+            response[PAGE_KEY] = (len(peers) + constants.K - 1) // constants.K
         if len(peers) > constants.K:
             random.Random(self.protocol.node_id).shuffle(peers)
         if page * constants.K < len(peers):
